@@ -122,6 +122,9 @@ type knownEntry struct {
 	Prop, ID, Desc string
 }
 
+// properties whose theorems carry an oracle hypothesis as a premise
+var oracleHypothesisUsed = map[string]bool{"C04": true, "C09": true, "C19": true}
+
 var knownEntries []knownEntry
 
 func loadKnown(path string) {
@@ -193,6 +196,11 @@ type proofInfo struct {
 }
 
 func (c *Ctx) Finish(proof *proofInfo, rule string, trusted []string, assumptions []string) int {
+	for name, l := range map[string][]string{"H1 (ASCII transparency)": oracleH1Fail, "H2 (ASCII-case invariance)": oracleH2Fail, "H3 (lower-case ASCII, non-empty output)": oracleH3Fail} {
+		if len(l) > 0 && oracleHypothesisUsed[c.Prop] {
+			c.Report(Finding{Class: "obligation", What: fmt.Sprintf("oracle hypothesis %s, a premise of this property's theorems, fails on the real IDNA library for %q", name, l), Case: Case{Kind: "oracle", Input: l[0]}})
+		}
+	}
 	wall := time.Since(c.Start).Seconds()
 	// prefer a genuine violation over a correspondence disagreement as the reported replay
 	sort.SliceStable(c.findings, func(i, j int) bool {
@@ -210,6 +218,7 @@ func (c *Ctx) Finish(proof *proofInfo, rule string, trusted []string, assumption
 		"oracle_calls":        oracleCalls,
 		"oracle_errors":       oracleErrs,
 		"oracle_H1_failures":  oracleH1Fail,
+		"oracle_H2_failures":  oracleH2Fail,
 		"oracle_H3_failures":  oracleH3Fail,
 		"known_findings_hit":  c.known,
 		"notes":               c.notes,
